@@ -210,6 +210,28 @@ def opsC10 : List (String × Handler) := [
       return fmt ([cut] ++ tabList n x ++ [frob r r (fun i j => utu i j - one i j), frob r r (fun i j => vtv i j - one i j),
                                            frob m n (fun i j => A i j - rec_ i j)])
     | _ => throw "arity"),
+  -- c10.pinveigh n hasAtol atol hasRtol rtol eps A(n*n) Q(n*n) lam(n) b(n)
+  --   -> cut x(n) |Q^T Q - 1| |A - Q L Q^T|           (PINV(hermitian=True).forward with the kernel unfolded to eigh)
+  ("c10.pinveigh", fun ts => do
+    match ts with
+    | n :: ha :: atol :: hr :: rtol :: eps :: rest =>
+      let n ← nat n; let ha ← nat ha; let hr ← nat hr
+      let atol ← num atol; let rtol ← num rtol; let eps ← num eps
+      let (A, rest) ← takeNums (n * n) rest
+      let (Q, rest) ← takeNums (n * n) rest
+      let (lam, rest) ← takeNums n rest
+      let (b, _) ← takeNums n rest
+      let A := matOf n A; let Q := matOf n Q; let lam := vecOf lam
+      let ao := if ha == 1 then some atol else none
+      let ro := if hr == 1 then some rtol else none
+      let cut := pinvCutoff ao ro n n eps (maxN n fun t => sabs (lam t))
+      let x := pinvForwardEigh n Q lam ao ro eps (vecOf b)
+      let one : Nat → Nat → BigF := fun i j => if i = j then BigF.one else BigF.zero
+      let qtq := (tab2 n n (matMul n (transpose Q) Q)).get
+      let ql := (tab2 n n fun i t => Q i t * lam t).get
+      let rec_ := (tab2 n n (matMul n ql (transpose Q))).get
+      return fmt ([cut] ++ tabList n x ++ [frob n n (fun i j => qtq i j - one i j), frob n n (fun i j => A i j - rec_ i j)])
+    | _ => throw "arity"),
   -- c10.cgentry ndimA ndimB -> 1 (unsqueezed) | 0 | err assert:ndim
   ("c10.cgentry", fun ts => do
     match ts with
